@@ -47,7 +47,8 @@ func (c20) Plan(tier string, seed int64) []mon.Workload {
 		n = 3000
 	}
 	return []mon.Workload{{Name: "invocations", N: n, BatchTimeoutS: 1800},
-		{Name: "mode-matrix", N: int64(len(c20MatrixBodies) * 2 * 3 * 2 * 2), Exhaustive: true, BatchTimeoutS: 1800}}
+		{Name: "mode-matrix", N: int64(len(c20MatrixBodies) * 2 * 3 * 2 * 2), Exhaustive: true, BatchTimeoutS: 1800},
+		{Name: "lp-inputs", N: int64(len(c20LPInputs) * len(c20LPBodies) * 2 * 2), Exhaustive: true, BatchTimeoutS: 1800}}
 }
 
 // mode-matrix (exhaustive): every way of calling the runner x a handful of
@@ -64,6 +65,41 @@ var c20MatrixBodies = []struct{ Name, Text string }{
 	{"long-loop", "n = 0\nfor i = 0; i < 7000; i = i + 1 {\n  n = i\n}\nadd_key(after_loop, n)\n"},
 	{"multi-line", "add_key(ml, \"\"\"one\ntwo\"\"\")\ndefault_time(nosuchkey)\n"},
 	{"run-error", "add_key(before, 1)\nx = [1]\ny = x[5]\nadd_key(after, 1)\n"},
+}
+
+// lp-inputs (exhaustive): line-protocol inputs with escapes in every position
+// (measurement, tag keys, tag values, field keys, string fields), every field
+// type, blank and comment lines, CRLF x {json, lineprotocol} x {workspace,
+// single file} x bodies that leave the point alone / touch escaped keys.
+var c20LPInputs = []string{
+	"cpu\\=load,host=h1 v=1i 1700000000000000003\n",
+	"cpu\\\"q,host=h1 v=1i 1700000000000000003\n",
+	"we\\ ird\\,m,ta\\=g=v\\,1,t\\ 2=a\\=b fi\\=eld=1i,f\\ 2=\"q\\\"uo\\\\ted\" 1700000000000000004\n",
+	"m v=1e3,w=-0.0,x=t,y=F,z=\"\" 1700000000000000005\n",
+	"m,host=h\\1 v=\"a\\b\" 1700000000000000007\n",
+	"   m v=1i 1700000000000000008\n",
+	"m v=1i 1700000000000000009\r\nm2 v=2i 1700000000000000010\r\n",
+	"a\\=b\\=c v=1i 1700000000000000011\nplain v=2i 1700000000000000012\n",
+	"plain v=2i 1700000000000000012\na\\=b v=1i 1700000000000000011\n",
+	"m,a=1,b=2 message=\"has message\",v=9223372036854775807i 1\n",
+}
+var c20LPBodies = []struct{ Name, Text string }{
+	{"untouched", "add_key(nk, 7)\n"},
+	{"reads-writes", "add_key(nk2, \"s\")\nset_tag(tg1, \"tv\")\nrename(v2, v)\n"},
+	{"empty", "# nothing\n"},
+}
+
+func c20LPCase(i int64) c20Case {
+	out := []string{"json", "lineprotocol"}[i%2]
+	i /= 2
+	mode := []string{"workspace", "single"}[i%2]
+	i /= 2
+	body := c20LPBodies[int(i)%len(c20LPBodies)]
+	in := c20LPInputs[int(i)/len(c20LPBodies)]
+	cs := c20Case{Files: map[string]string{}, Script: "sel.p", OutType: out, Mode: mode, Features: []string{"lp-input", body.Name}}
+	cs.Files["sel.p"] = body.Text
+	cs.InType, cs.Input = "lineprotocol", in
+	return cs
 }
 
 func c20Matrix(i int64) c20Case {
@@ -223,8 +259,13 @@ func (c20) build(c *mon.Ctx) c20Case {
 }
 
 func (k c20) Describe(c *mon.Ctx, workload string, i int64) any {
-	cs := k.build(c)
-	return cs
+	switch workload {
+	case "mode-matrix":
+		return c20Matrix(i)
+	case "lp-inputs":
+		return c20LPCase(i)
+	}
+	return k.build(c)
 }
 
 type outPoint struct {
@@ -347,6 +388,9 @@ func (k c20) Run(c *mon.Ctx, workload string, i int64) {
 	cs := k.build(c)
 	if workload == "mode-matrix" {
 		cs = c20Matrix(i)
+	}
+	if workload == "lp-inputs" {
+		cs = c20LPCase(i)
 	}
 	bin := filepath.Join(root(), ".build", "platypus")
 	if _, err := os.Stat(bin); err != nil {
